@@ -105,6 +105,23 @@ def _forall(vs, body, patterns=None, dims=None):
 
 
 # ----------------------------------------------------------------------------- max
+def reduce_min(a, axis=None, initial=None, where=None, keepdims=False):
+    """min(a) = -max(-a) (exact for integers and reals; bool arrays are not supported)"""
+    a = asarray(a)
+    if a._dtype == "bool":
+        raise Undecided("min of a boolean array")
+    if where is not None and initial is None:
+        raise ValueError("reduction operation min does not have an identity, so to use a where mask one has to specify 'initial'")
+    out = reduce_max(-a, axis=axis, initial=None if initial is None else -lift_value(initial), where=where, keepdims=keepdims)
+    return -out
+
+
+def lift_value(v):
+    from ..values import T
+
+    return v if isinstance(v, (int, float, T)) else v
+
+
 def reduce_max(a, axis=None, initial=None, where=None, keepdims=False):
     ctx = cur()
     a = asarray(a)
